@@ -95,7 +95,8 @@ def _init_worker(universe, rel=None, driver="builder"):
     _CACHE = {}
     _REL = rel
     import drive  # noqa  (imports awesomeyaml from /repo)
-    drive.DRIVER = driver
+    drive.DRIVER = driver.split("+")[0]
+    drive.CONSTRUCT = "+construct" in driver
 
 
 def _docs_outcome(docs, safes):
@@ -145,6 +146,13 @@ def _replay_one(beh):
     want = norm_expected(want)
     if got != want:
         return {"h": idx, "s": safes, "want": want, "got": got}
+    import drive
+    if drive.CONSTRUCT and beh.get("c", {}).get("status", "none") != "none":
+        c = drive.construct_outcome([_UNIVERSE[i - 1] for i in idx], safes)
+        wantc = beh["c"]
+        gotpaths = sorted([kstr(k) for k in p] for p in c["paths"])
+        if c["status"] != wantc["status"] or gotpaths != sorted(wantc["paths"]) or (c["status"] == "RequiredError" and c["calls"] != 0):
+            return {"h": idx, "s": safes, "want": want, "got": got, "wantc": wantc, "gotc": c}
     if _REL:
         import relations
         relfn, chk = relations.RELATIONS[_REL]
